@@ -108,9 +108,9 @@ func ruleGlobals(p *Prog, r *Result) {
 			root = root.Parent()
 		}
 		allowed := ""
-		if why, ok := globalsAllowedWriters[p.FName(root)]; ok {
+		if why, ok := globalsAllowedWriters[p.FName(root)]; ok && root.Signature.Recv() == nil {
 			allowed = why
-		} else if root.Name() == "init" || strings.HasPrefix(root.Name(), "init#") {
+		} else if root.Signature.Recv() == nil && (root.Name() == "init" || strings.HasPrefix(root.Name(), "init#")) {
 			allowed = globalsAllowedWriters["init"]
 		}
 		idx := 0
@@ -147,6 +147,24 @@ func ruleGlobals(p *Prog, r *Result) {
 					if addrFromGlobal(x.Common().Args[0]) {
 						report(in, b.Name()+" on package-level map")
 					}
+					return
+				}
+				// the address of a package variable (or of a part of it) handed to a call or used as a
+				// method receiver: the callee may write shared state (sync.Map.Store, mutex, Reset, ...)
+				for _, a := range x.Common().Args {
+					if _, isPtr := a.Type().Underlying().(*types.Pointer); !isPtr {
+						continue
+					}
+					isAddr := false
+					switch y := a.(type) {
+					case *ssa.Global:
+						isAddr = y.Pkg == p.SPkg
+					case *ssa.FieldAddr, *ssa.IndexAddr:
+						isAddr = addrFromGlobal(y) && !derivesThroughLoad(y)
+					}
+					if isAddr {
+						report(in, "address of a package variable passed to "+callDesc(p, x))
+					}
 				}
 			}
 		})
@@ -165,4 +183,23 @@ func keysOfS(m map[string]string) []string {
 	}
 	sort.Strings(ks)
 	return ks
+}
+
+// derivesThroughLoad: the address chain passes through a pointer load (then it addresses an object
+// the global merely points to, handled by the row-type clause), not the global's own storage.
+func derivesThroughLoad(v ssa.Value) bool {
+	for {
+		switch x := v.(type) {
+		case *ssa.FieldAddr:
+			v = x.X
+		case *ssa.IndexAddr:
+			v = x.X
+		case *ssa.UnOp:
+			return true
+		case *ssa.Lookup:
+			return true
+		default:
+			return false
+		}
+	}
 }
